@@ -21,7 +21,7 @@ type c12Case struct {
 	Shape   int    `json:"shape"`
 	Second  bool   `json:"second"`             // fault on the second render of the same Msg (boundaries cached)
 	SinkAt  int    `json:"sink_at"`            // sink fails once this many bytes were accepted (-1 = never)
-	Style   int    `json:"style"`              // 0 accepts the prefix then errors, 1 rejects the whole write, 2 accepts the prefix and reports no error for that write (every later write is refused)
+	Style   int    `json:"style"`              // 0 accepts the prefix then errors, 1 rejects the whole write, 2 accepts the prefix and reports no error for that write (every later write is refused), 3 takes the whole write and reports an error, 4 drops the tail of one write silently and goes on accepting, 5 refuses one write and works again afterwards
 	Prod    string `json:"prod"`               // producer that fails ("" = none)
 	ProdHow int    `json:"prod_how"`           // 1 before data, 2 after half, 3 after all data
 	ErrKind int    `json:"err_kind,omitempty"` // which error value the failing producer returns (index into c12Errs)
@@ -91,20 +91,32 @@ type faultSink struct {
 var errSink = errors.New("sink failed (injected)")
 
 func (s *faultSink) Write(p []byte) (int, error) {
-	if s.fired {
+	if s.fired && s.style < 4 {
 		return 0, errSink
 	}
-	if s.at >= 0 && s.accepted+len(p) > s.at {
+	if !s.fired && s.at >= 0 && s.accepted+len(p) > s.at {
 		s.fired = true
-		if s.style == 1 {
+		k := s.at - s.accepted
+		switch s.style {
+		case 1:
+			return 0, errSink
+		case 2:
+			// accepts only a prefix of this write and does not say so (n < len(p), nil); every later write is refused
+			s.accepted += k
+			return k, nil
+		case 3:
+			// takes the whole write and reports a failure all the same (io.Writer allows n == len(p) with an error)
+			s.accepted += len(p)
+			return len(p), errSink
+		case 4:
+			// drops the tail of this one write without saying so and goes on accepting afterwards
+			s.accepted += k
+			return k, nil
+		case 5:
+			// refuses this one write and works again afterwards (a transient failure)
 			return 0, errSink
 		}
-		k := s.at - s.accepted
 		s.accepted += k
-		if s.style == 2 {
-			// accepts only a prefix of this write and does not say so (n < len(p), nil); every later write is refused
-			return k, nil
-		}
 		return k, errSink
 	}
 	s.accepted += len(p)
@@ -326,7 +338,7 @@ func init() {
 				}
 				L := b.Len()
 				for _, second := range []bool{false, true} {
-					for style := 0; style < 3; style++ {
+					for style := 0; style < 6; style++ {
 						for k := 0; k < L; k++ {
 							if spec.SMIME != 0 && !r.Thorough && k%3 != 0 {
 								continue // signing is the expensive part; quick takes every third offset on signed shapes
